@@ -196,6 +196,9 @@ type jsonWalk struct {
 	// checkString, if set, is called with the raw spelling (quotes included) of every string and every
 	// member name, a name before it is decoded; an error ends the walk.
 	checkString func(raw []byte) error
+	// skipMember, if set, names the members of the top-level object whose values are not looked into:
+	// their strings are not checked and the names of their members are not compared.
+	skipMember func(name string) bool
 }
 
 // duplicateName returns the first member name that occurs twice in one object, at any depth, or the
@@ -203,9 +206,14 @@ type jsonWalk struct {
 func (w jsonWalk) duplicateName(data []byte) (name string, found bool, err error) {
 	var stack []map[string]struct{} // member names of the enclosing objects; nil for an array
 	expectKey := false              // the next string is a member name
+	skipping := false               // inside the value of a top-level member that skipMember named
 	for i := 0; i < len(data); i++ {
 		switch data[i] {
 		case '{':
+			if skipping {
+				stack = append(stack, nil)
+				break
+			}
 			stack = append(stack, map[string]struct{}{})
 			expectKey = true
 		case '[':
@@ -217,8 +225,14 @@ func (w jsonWalk) duplicateName(data []byte) (name string, found bool, err error
 			}
 			stack = stack[:len(stack)-1]
 			expectKey = false
+			if len(stack) == 0 {
+				skipping = false
+			}
 		case ',':
-			expectKey = len(stack) > 0 && stack[len(stack)-1] != nil
+			if len(stack) == 1 {
+				skipping = false
+			}
+			expectKey = !skipping && len(stack) > 0 && stack[len(stack)-1] != nil
 		case '"':
 			end, escaped := i+1, false
 			for end < len(data) && data[end] != '"' {
@@ -231,7 +245,7 @@ func (w jsonWalk) duplicateName(data []byte) (name string, found bool, err error
 			if end >= len(data) {
 				return "", false, nil
 			}
-			if w.checkString != nil {
+			if !skipping && w.checkString != nil {
 				if err = w.checkString(data[i : end+1]); err != nil {
 					return "", false, err
 				}
@@ -247,6 +261,7 @@ func (w jsonWalk) duplicateName(data []byte) (name string, found bool, err error
 				}
 				names[key] = struct{}{}
 				expectKey = false
+				skipping = len(stack) == 1 && w.skipMember != nil && w.skipMember(key)
 			}
 			i = end
 		}
